@@ -19,19 +19,19 @@ CHECKS = {
             "expected-tree builder bound to the repository's golden JSON files", "explicit-state enumeration of descriptions x formatting variants"),
     "C08": ("every placement of a referenced declaration (before/after/self/undeclared/imported before/after/nested/dotted) x every wrapper chain x interleaved unrelated declarations, module cases on a real file tree incl. one module reached along two import paths; every acyclic import graph over 4 files (and a family over 5) with one cross-file reference against a visibility model; oracle: resolution spec",
             "duplicate type names are C09's subject", "explicit-state enumeration against a resolution specification"),
-    "C09": ("all schema trees of per-rule sub-scopes built through the constructors x 3 check-set configurations x every permutation of the declaration lists; oracle: three-valued reference predicate + permutation invariance",
+    "C09": ("all schema trees of per-rule sub-scopes built through the constructors x 3 check-set configurations x every permutation of the declaration lists (incl. two CAN bindings x ids x buses none/b1/b2/default); oracle: three-valued reference predicate + permutation invariance",
             "statement-silent cases (non-CAN binding > 64 bits under the C check set) accept either verdict", "small-scope exhaustive enumeration against a reference predicate"),
     "C10": ("for each generator every check evaluation of the verification run is made to fail in turn (fault enumeration through Verifier.register) x pre-existing directory states (incl. a missing nested directory); plug-ins returning one path twice; an uncategorized check; a stub plug-in writing into sub-directories; CLI exit status; rule-violating schemas; accepted runs vs the plug-in's returned files; generate() histories by fork-snapshot; CLI",
             "an exception counts as an error report; deletions by a plug-in's own generate() on accepted schemas are not judged", "exhaustive fault-point enumeration + history exploration with directory snapshots"),
-    "C11": ("every prefix of every corpus text, every single-token mutation at every token position, every token string up to length 4/5 over two 12-token alphabets, every literal slot x value form, nesting depths 100..1000 (3000) in every recursive production, every import graph over 2 (3) files, layered graphs with 2^n paths to a valid or broken leaf, main files that are not UTF-8, and the same inside an imported module; every parse history through one Logger re-rendering earlier errors; oracle: no exception, Ok or renderable Err, cited lines exist",
+    "C11": ("every prefix of every corpus text, every single-token mutation at every token position, every token string up to length 4/5 over two 12-token alphabets, every literal slot x value form, nesting depths 100..1000 (3000) in every recursive production, every import graph over 2 (3) files, layered graphs with 2^n paths to a valid or broken leaf, main files that are not UTF-8, texts given as a string under seven states of the working directory (removed, symlink loop / dangling link / directory / file called main.fcp), and the same inside an imported module; every parse history through one Logger re-rendering earlier errors; oracle: no exception, Ok or renderable Err, cited lines exist",
             "termination decided within a 10 s alarm per input", "exhaustive enumeration of input families on the real parser"),
-    "C12": ("C07's description space (incl. integers beyond the record's fixed-width slots) reflected, compared with the record computed from the description, serialized with the built-in reflection schema and decoded back",
+    "C12": ("C07's description space (incl. integers beyond the record's fixed-width slots) reflected, compared with the record computed from the description, serialized with the built-in reflection schema and decoded back; schemas split over modules; reflection repeated after every sequence of <= 2 (3) generator runs on the parsed object",
             "expected record builder fcpmc/reftree.py", "explicit-state enumeration against a reference model + round trip"),
     "C16": ("every byte truncation point of every canonical encoding of the C01 shape/value space and every length prefix replaced by {n+1,n+2,255,65536,2^31,2^32-1}; decode must raise whenever the reference decoder runs out of bits, and dynamic arrays of zero-width elements given only a count prefix (from text and from trees built through the constructors); inside a deterministic step budget linear in the input",
             "step budget counted with sys.setprofile (calls), no wall clock; termination is a bounded statement", "exhaustive fault-point enumeration (truncation, corrupted length prefixes)"),
-    "C17": ("every (generator, schema) under 4/16 hash seeds in fresh processes compared file by file; every history over {parse(s), gen(g,s)} up to depth 3/4 in one process by fork-snapshot, each gen node compared with the fresh-process reference",
+    "C17": ("every (generator, schema) under 4/16 hash seeds in fresh processes compared file by file; every history over {parse(s), gen(g,s)} up to depth 3/4 in one process by fork-snapshot, each gen node compared with the fresh-process reference (history schemas declare fields against their ids and leave signal-block options to their defaults, so a generator that writes into the tree shows in the next one)",
             "only the documented stamp line is masked", "configuration enumeration + fork-snapshot history exploration"),
-    "C20": ("every closed assignment of a base schema's declarations to {main, m1, m2} x topology star/chain x path depth x mod position on a real file tree vs the single-file parse; diamond layouts (a shared module imported by main and by another module); every acyclic import graph over 4 one-struct files (ordered import lists, repeats); the same split parsed through the string entry point; every injected module error must be an Err naming the module",
+    "C20": ("every closed assignment of a base schema's declarations to {main, m1, m2} x topology star/chain x path depth x mod position on a real file tree vs the single-file parse; diamond layouts (a shared module imported by main and by another module); every acyclic import graph over 4 one-struct files (ordered import lists, repeats); the same split parsed through the string entry point (also with the module called main.fcp); every injected module error must be an Err naming the module",
             "cross-file declaration order is not judged, only per-category multisets", "exhaustive enumeration of module splits, differential oracle"),
 }
 CHECKS.update({
@@ -43,13 +43,13 @@ CHECKS.update({
             "gcc 12; NaN/infinities excluded (no portable literal), -0.0 compared bit for bit; a naming family (device/message/binding/enum/signal names of every casing, leading underscores, frame ids at and beyond 11 bits)", "explicit-state enumeration of generator inputs, compiled and executed against a reference model"),
     "C13": ("C03's struct space in the same harness: the reflection binary produced by the Python tool is loaded with LoadBinarySchema and the dynamic codec's bytes/values are compared with the static codec's for every boundary value; LoadBinarySchema histories on one object (older revision then newer); enum numbers without enumerator",
             "enumerator values stay below 2^31 (the reflection record's slot, open C12 finding); a run-time schema that does not compile is a violation, not a skip", "explicit-state enumeration, differential oracle (static vs dynamic codec)"),
-    "C14": ("CAN bindings of every size 57..72, 80, 96, 128, 200 bits with the excess in a scalar, nested struct, array, array of structs or enum at first/middle/last position, every placement of a str/dynamic array/optional, and odd big-endian placements behind multiplexing relations; DBC generate and the can_c generation command must fail and emit nothing for > 64 bits / variable size; geometry of everything emitted",
+    "C14": ("CAN bindings of every size 57..72, 80, 96, 128, 200 bits with the excess in a scalar, nested struct, array, array of structs or enum at first/middle/last position, every placement of a str/dynamic array/optional, odd big-endian placements behind multiplexing relations, and multiplexed signals behind a leading selector at the end of messages of 64..72 bits; DBC generate and the can_c generation command must fail and emit nothing for > 64 bits / variable size; geometry of everything emitted",
             "an exception counts as failing with an error", "explicit-state enumeration around the size limit + geometric invariant on emitted artefacts"),
     "C15": ("every struct with 2-3 fields (4 in thorough) over representative kinds x EVERY permutation of the declaration order (ids fixed) compared with its id-sorted twin in all back ends: Python codec, packed layout, DBC, generated C frames (gcc), C++ static and dynamic bytes",
             "CAN back ends on the fixed-size subset <= 64 bits", "exhaustive permutation enumeration, differential oracle"),
     "C18": ("schemas with 1..4 CAN bindings (payloads 1,7,8,9,33,64 bits, mixed and beyond 8 bytes (72 bits, strings), bus names beyond the 4-byte tag (under ASan), the generator's headers in another include order, ids {0,1,100,2047}, bus names of length 1..4, prefix-related buses, long names) through Can{CanStaticSchema} and Can{CanDynamicSchema}: encode == reference frame; decode of every frame and of every frame with the id or one bus character changed",
             "bindings named after their struct", "explicit-state enumeration of schemas x frames against a reference frame, static/dynamic differential"),
-    "C19": ("for every device (1..3 messages, 4 in thorough; periods from {absent,-1,1,2,3,5}) EVERY call history of length 5 (7 for selected devices in thorough) over the delta alphabet {0,1,P-1,P,P+1,2P,wrap} on the generated C scheduler, one forked process per history; oracle: reference automaton + independent trace invariant + frame contents",
+    "C19": ("for every device (1..3 messages, 4 in thorough; periods from {absent,-1,1,2,3,5}) EVERY call history of length 5 (7 for selected devices in thorough) over the delta alphabet {0,1,P-1,P,P+1,2P,wrap} on the generated C scheduler, one forked process per history; two devices linked into one program (declared grouped and interleaved) called with the same timestamps in every order pattern; oracle: reference automaton + independent trace invariant + frame contents",
             "gcc 12; 32-bit wrap exercised through deltas 2^32-3 and a start at 2^32-2", "exhaustive exploration of call histories of the real compiled code (fork per history) against a reference automaton"),
 })
 PENDING = {}
